@@ -835,12 +835,16 @@ class Sim:
                 self.flags["edit_while_other_warm"] = True
         # the registry's memoised digest (public unit_system_id, which feeds Unit.__hash__) must describe the
         # table as it is now.  Read through the private attribute so that the check itself fills no memo.
+        used = w.handle(op, node)
         for h in node.handles:
             sid = getattr(h, "_unit_system_id", None)
             if sid is not None and sid != table_digest(h.lut):
+                which = "edited-handle" if h is used else "other-handle"
                 self.violate("stale-registry-id", ["C12"],
-                             {"op": op, "note": "unit_system_id is the digest of an earlier table: it (and hash(Unit)) "
-                                                "differ from a fresh registry with the same contents"}, [k])
+                             {"op": op, "handle": which,
+                              "note": "unit_system_id is the digest of an earlier table: it (and hash(Unit)) "
+                                      "differ from a fresh registry with the same contents"},
+                             [k, which] if h is used else [which])
                 break
         return {"warm": warm, "fresh": {kk: vv for kk, vv in cold.items() if kk != "others_changed"}}
 
